@@ -133,3 +133,61 @@ contract(
         "E(self._weights[k]) / (E(self._logZ) / real(self._n)))",
     ],
 )
+
+# ---- importance sampler: the result dictionary reports the sampler's values --
+INSF = "nessai/samplers/importancesampler.py"
+shape("INSStateRes", {"log_evidence": "Real", "log_evidence_error": "Real",
+                      "log_posterior_weights": "Seq(Real)"})
+shape("INSStoreRes", {"samples": f"Struct({INS_ROW})",
+                      "state": "Obj(INSStateRes)"})
+shape("INSModelRes", {}, methods={
+    "from_unit_hypercube": Contract(
+        "<abstract>", "INSModelRes.from_unit_hypercube",
+        params={"x": f"Struct({INS_ROW})"}, trusted=True,
+        trusted_reason="maps the unit-hypercube samples back to the "
+        "physical space, one row per row (C10 / the user's map)",
+        returns=f"Struct({INS_ROW})", ensures=["len(result) == len(x)"]),
+})
+shape("INSResults", {
+    "history": "Any", "model": "Obj(INSModelRes)",
+    "training_samples": "Obj(INSStoreRes)",
+    "iid_samples": "Opt(Obj(INSStoreRes))",
+    "bootstrap_log_evidence": "Any", "bootstrap_log_evidence_error": "Any",
+    # (read-only properties of the sampler, shadowed: their definitions are
+    # the evidence-state contracts above)
+    "final_samples": f"Struct({INS_ROW})",
+    "final_log_posterior_weights": "Seq(Real)",
+    "final_log_evidence": "Real", "final_log_evidence_error": "Real",
+    "training_time": "Any", "draw_samples_time": "Any",
+    "add_and_update_samples_time": "Any", "draw_final_samples_time": "Any",
+    "importance": "Any",
+}, cls="ImportanceNestedSampler", methods={
+    "get_result_dictionary": Contract(
+        "<abstract>", "INSResults.get_result_dictionary",
+        trusted=True, returns="EmptyDict",
+        trusted_reason="BaseNestedSampler.get_result_dictionary: a fresh "
+        "dict the subclass adds to"),
+})
+contract(
+    INSF, "ImportanceNestedSampler.get_result_dictionary", props=["C05"],
+    self_shape="INSResults", returns="Any",
+    ensures=[
+        # the dictionary reports the same evidence, weights and samples as
+        # the sampler object
+        "result['log_evidence'] == self.final_log_evidence",
+        "result['log_evidence_error'] == self.final_log_evidence_error",
+        "result['log_posterior_weights'] is "
+        "self.final_log_posterior_weights",
+        "result['samples'] is self.final_samples",
+        "result['training_log_evidence'] == "
+        "self.training_samples.state.log_evidence",
+        "result['training_log_evidence_error'] == "
+        "self.training_samples.state.log_evidence_error",
+        "result['training_log_posterior_weights'] is "
+        "self.training_samples.state.log_posterior_weights",
+        "len(result['training_samples']) == "
+        "len(self.training_samples.samples)",
+        "iff('iid_log_evidence' in result, self.iid_samples is not None)",
+        "result['history'] is self.history",
+    ],
+)
